@@ -42,7 +42,8 @@ REQUIRED = ('static_attributes_compared', 'variant_codes_checked',
             'fixed_limit_offers', 'no_limit_offers', 'pot_limit_offers',
             'pot_limit_offers_raked_pot',
             'rounds_capped_at_four', 'hole_facings_checked',
-            'split_low_pushed', 'split_no_low', 'variants_played')
+            'split_low_pushed', 'split_no_low', 'variants_played',
+            'interleave_points')
 
 D, U = False, True
 P = 'POSITION'
@@ -412,7 +413,7 @@ class VariantMonitor(Monitor):
 
 
 def make_monitors():
-    return [VariantMonitor()]
+    return [driver.Interleaver(), VariantMonitor()]
 
 
 def gen_kwargs(rng):
